@@ -43,7 +43,8 @@ class ValidateSwizzleMaskVisitor(Visitor.DefaultVisitor):
                     expr.GetMember().GetName(), t.GetComponentCount()
                 )
             elif t.IsPrimitive() and t.IsScalar():
-                ValidateSwizzleMask(expr.GetMember().GetName())
+                # A scalar has a single component
+                ValidateSwizzleMask(expr.GetMember().GetName(), 1)
 
         # The parent can be a swizzle itself
         expr.AcceptVisitor(self)
